@@ -35,6 +35,9 @@ Judge_file_rt(c) ==
      IN << \* ---- C05: the file has the specification's layout; an independent parser recovers the records
            IF ~pf.ok /\ pf.why \in {"H.schematext", "H.inflate"} THEN Cl(pf.why, "fail")
            ELSE Tri("C05.layout", pf.ok /\ VEqSeq(pf.records, expected)),
+           \* the same fact read as C02's: every block payload is exactly the concatenation of the records' encodings (nothing else in it)
+           IF ~pf.ok /\ pf.why \in {"H.schematext", "H.inflate"} THEN Cl("C02.payload", "skip")
+           ELSE Tri("C02.payload", pf.ok /\ VEqSeq(pf.records, expected)),
            IF pf.ok THEN Tri("H.walker", Len(c.walk) = Len(pf.blocks) /\ c.hend = pf.hend - 1
                                           /\ \A i \in 1..Len(c.walk) : c.walk[i] = <<pf.blocks[i].off, pf.blocks[i].size, pf.blocks[i].count>>)
            ELSE Cl("H.walker", "skip"),
